@@ -45,7 +45,7 @@ let history dumpit unsafe t0 ops =
   let ops = List.map op_of ops in
   let t0 = z_of_int (int_of_string t0) in
   let ((j, _), outs) = run (empty_jar (b01 unsafe), t0) ops in
-  let (_, routs) = rfc_run ([], t0) ops in
+  let (_, routs) = rfc_run (b01 unsafe) ([], t0) ops in
   let ans = List.map2 (fun a b -> "J=" ^ pairs a ^ ";R=" ^ pairs b) outs routs in
   (if ans = [] then "-" else String.concat "|" ans) ^ (if dumpit then " # " ^ dump j else "")
 let strs l = if l = [] then "<none>" else String.concat "," (List.map hex_of_bytes l)
